@@ -131,26 +131,28 @@ func (m *Module) callersOf(f *ssa.Function) []callSite {
 // funcRefs lists the places where function f is used as a value (not called):
 // stored, passed as an argument, bound as a method value or closure.
 func (m *Module) funcRefs(f *ssa.Function) []ssa.Instruction {
-	var out []ssa.Instruction
-	for _, fn := range m.funcs() {
-		for _, b := range fn.Blocks {
-			for _, in := range b.Instrs {
-				var ops [12]*ssa.Value
-				for _, op := range in.Operands(ops[:0]) {
-					if *op == nil {
-						continue
-					}
-					if g, ok := (*op).(*ssa.Function); ok && g == f {
-						if ci, isCall := in.(ssa.CallInstruction); isCall && ci.Common().Value == *op {
+	if m.refs == nil {
+		m.refs = map[*ssa.Function][]ssa.Instruction{}
+		for _, fn := range m.funcs() {
+			for _, b := range fn.Blocks {
+				for _, in := range b.Instrs {
+					var ops [12]*ssa.Value
+					for _, op := range in.Operands(ops[:0]) {
+						if *op == nil {
 							continue
 						}
-						out = append(out, in)
+						if g, ok := (*op).(*ssa.Function); ok {
+							if ci, isCall := in.(ssa.CallInstruction); isCall && ci.Common().Value == *op {
+								continue
+							}
+							m.refs[g] = append(m.refs[g], in)
+						}
 					}
 				}
 			}
 		}
 	}
-	return out
+	return m.refs[f]
 }
 
 // ---------------------------------------------------------------- access paths
